@@ -174,6 +174,7 @@ def run_one(job):
             b_list = list(L)
             b_ids = list(map(id, L))
             b_vals = [t.value for t in L]
+            b_ind = [t.indent for t in L]
             cur["rule"], cur["edits"], cur["updates"] = r, [], 0
             try:
                 return orig(oFile, dFixOnly)
@@ -181,6 +182,8 @@ def run_one(job):
                 cur["rule"] = None
                 L2 = o.lAllObjects
                 changed = cur["updates"] > 0 or len(L2) != len(b_ids) or list(map(id, L2)) != b_ids or [t.value for t in L2] != b_vals
+                if len(L2) == len(b_ids) and cur["updates"] == 0 and [t.indent for t in L2] != b_ind and r.unique_id not in out.setdefault("indent_writers", []):
+                    out["indent_writers"].append(r.unique_id)  # a rule that rewrites indent levels of tokens it does not replace
                 if changed:
                     cur["last_changer"] = r.unique_id
                     ed = cur["edits"]
